@@ -32,6 +32,11 @@ EXTENSION ROUND 6 (Props/C01TabG, C01TabH, C01TabX, C01TabR.lean): `gdet`, `Mome
 discharged against `den` under hypotheses about the INPUTS only (`InputsOK`), `st_Riemann_down4` with no hypothesis
 (its return sites are now generated); sub-tables of 125 / 139 / 147 keys; `HardCoh` shrinks to `HardCoh3` = the three
 class (c) bodies `st_Ricci_down4`, `st_Ricci_down3`, `st_Weyl_down4` (`tab_transparent_inputs3`).
+
+EXTENSION ROUND 7 (Props/C01TabS.lean, C01TabSEx.lean, Lemmas/C01LocS.lean): `st_Ricci_down4` and `st_Ricci_down3` are
+discharged ON SHELL (`ShellHyp`: `CurvHyp` + Einstein's equations for the jet assembled from the denotations); 155 keys on
+shell with no hypothesis about a body (`sub155_transparent_onshell`); all 161 under `HardCoh1` = the body of `st_Weyl_down4`
+(`tab_transparent_onshell_partial`; what is missing for it: header of Props/C01TabS.lean).
 -/
 import AurelVerif.Props.C01M
 import AurelVerif.Lemmas.CacheDen
